@@ -98,6 +98,7 @@ PROPS["C06"] = {
         rapid("bitmap-stats-model", "packetcache", "TestVerif_C06_BitmapStatsModel", 4000, 30000),
         rapid("tobitmap", "packetcache", "TestVerif_C06_ToBitmap", 4000, 30000),
         rapid("readloop-nacks", "rtpconn", "TestVerif_C06_ReadLoopNacks", 150, 1000),
+        rapid("multi-track-reports", "rtpconn", "TestVerif_C06_MultiTrackReports", 300, 3000),
         rapid("nack-relay", "rtpconn", "TestVerif_C06_NackRelay", 160, 1200, shards=8, quick_shards=8),
     ],
     "technique": "model-based property testing (rapid): loss bitmap / statistics / NACK packing against a model with extended seqnos; real readLoop with captured RTCP",
@@ -215,6 +216,7 @@ PROPS["C18"] = {
         rapid("conditional-sequences", "webserver", "TestVerif_C18_ConditionalSequences", 300, 2500),
         rapid("racing-writers", "webserver", "TestVerif_C18_RacingWriters", 60, 500),
         rapid("parked-writers", "webserver", "TestVerif_C18_ParkedWriters", 300, 3000),
+        rapid("readers-vs-replacements", "webserver", "TestVerif_C18_ReadersVsReplacements", 40, 300, shards=8, quick_shards=4),
         crash("crash-points", "group", "group", 6, 60),
         crash("fault-points", "group", "group", 6, 48, mode="fault"),
     ],
